@@ -20,8 +20,11 @@
 #include <signal.h>
 #include <setjmp.h>
 #include <unistd.h>
+#include <sys/time.h>
 #include "cstl/array.h"
 #include "cstl/vector.h"
+/* a run that does not come back is judged on this process's CPU time (a busy machine is not a hang) */
+static void cpu_limit(int secs) { struct itimerval it; memset(&it, 0, sizeof it); it.it_value.tv_sec = secs; setitimer(ITIMER_PROF, &it, NULL); }
 
 #define GUARD 64
 #define MAXN 8192
@@ -187,7 +190,7 @@ static void run_sort(const int *vals, size_t n, size_t esz, int algo, int via, i
     (void)protect_begin();
     sig = sigsetjmp(jb, 1);
     if (sig == 0) {
-        alarm(20);
+        cpu_limit(60);
         if (via == 0) cstl_raw_array_sort(arr, n, esz, cmp, &priv_token, swp, scratch, (cstl_sort_algorithm_t)algo);
         else {
             /* a vector whose storage is our buffer: cap = n puts its scratch slot where ours is only if
@@ -207,7 +210,7 @@ static void run_sort(const int *vals, size_t n, size_t esz, int algo, int via, i
             cstl_vector_clear(&v);
             in_lib = 0;
         }
-        alarm(0);
+        cpu_limit(0);
         fputs("\"dr\":[", out);
         for (i = 0; i < (size_t)ndrawn && i < MAXD; i++) {
             int v = i < (size_t)maxdraws ? draws[i] : 0;
@@ -218,9 +221,9 @@ static void run_sort(const int *vals, size_t n, size_t esz, int algo, int via, i
         put_arr("A1"); fputs(",", out); put_ids();
         end_rec("ok", full_events);
     } else {
-        alarm(0);
+        cpu_limit(0);
         fputs("\"dr\":[],\"A1\":[],\"ids\":[]", out);
-        end_rec(sig == SIGALRM ? "hang" : sig == SIGABRT ? "abort" : "segv", 0);
+        end_rec((sig == SIGALRM || sig == SIGPROF) ? "hang" : sig == SIGABRT ? "abort" : "segv", 0);
     }
 }
 static void run_probe(const char *op, const int *vals, size_t n, size_t esz, int x, int via, int alias)
@@ -233,7 +236,7 @@ static void run_probe(const char *op, const int *vals, size_t n, size_t esz, int
     alias_probe = NULL;
     sig = sigsetjmp(jb, 1);
     if (sig == 0) {
-        alarm(20);
+        cpu_limit(60);
         if (via == 0) {
             if (alias >= 0) pp = alias_probe = arr + (size_t)alias * esz;
             if (!strcmp(op, "search")) r = (long)cstl_raw_array_search(arr, n, esz, pp, cmp, &priv_token);
@@ -252,10 +255,10 @@ static void run_probe(const char *op, const int *vals, size_t n, size_t esz, int
             arr = keep_arr; scratch = keep_scr;
             cstl_vector_clear(&v);
         }
-        alarm(0); alias_probe = NULL;
+        cpu_limit(0); alias_probe = NULL;
         fprintf(out, "\"ret\":%ld,", r); put_arr("A1"); fputs(",", out); put_ids();
         end_rec("ok", 1);
-    } else { alarm(0); fputs("\"ret\":0,\"A1\":[],\"ids\":[]", out); end_rec(sig == SIGALRM ? "hang" : "segv", 0); }
+    } else { cpu_limit(0); fputs("\"ret\":0,\"A1\":[],\"ids\":[]", out); end_rec((sig == SIGALRM || sig == SIGPROF) ? "hang" : "segv", 0); }
 }
 
 static int icmp(const void *a, const void *b) { return *(const int *)a - *(const int *)b; }
@@ -267,7 +270,7 @@ int main(int argc, char **argv)
     if (argc < 4) return 64;
     out = fopen(argv[1], "w"); if (!out) return 73;
     buf = malloc(3 * GUARD + (MAXN + 1) * 64 + 64);
-    signal(SIGSEGV, onsig); signal(SIGBUS, onsig); signal(SIGABRT, onsig); signal(SIGALRM, onsig); signal(SIGFPE, onsig);
+    signal(SIGSEGV, onsig); signal(SIGBUS, onsig); signal(SIGABRT, onsig); signal(SIGALRM, onsig); signal(SIGPROF, onsig); signal(SIGFPE, onsig);
     fprintf(out, "{\"id\":0,\"hdr\":true}\n");
     if (!strcmp(argv[2], "exhaustive")) {
         int maxlen = atoi(argv[3]); int len, k; size_t si; long code, total;
